@@ -15,6 +15,21 @@
 //!        make_io! made (the parent pipes the renderings in) and write it through `writer`.
 //!        <out>: 0 the child's stdout is a pipe | 1 an empty regular file | 2 a regular file that already holds a
 //!        line, the handle positioned behind it (the line must still be there afterwards)
+//!   U <via> <entry> <bug> <mid> <maxchunk> <intr> <seed> <rt> <op>*
+//!        like S, but the writer's life ends because the CALLER's code panics after the last piece while the sink is
+//!        perfectly healthy: the Writer is dropped by UNWINDING (std::thread::panicking() is true inside its Drop).
+//!        <via>: 0 the script runs in a closure under catch_unwind | 1 on a worker thread that panics (joined)
+//!             | 2 the whole script (new .. normal drop) runs inside a destructor while the thread is unwinding
+//!        <entry>: 0 public API | 1 `w` pieces through the trait method `Writable::write(&v, &mut writer)` directly
+//!             (the entry point of user-defined impls: no flush per write in debug builds, so bytes are pending there too)
+//!        <bug>: 0 index out of range in an argument of writer.write | 1 a user-defined Writable impl that panics after
+//!             it has written the script's last `w` piece (falls back to 0 when the script does not end with `w`)
+//!             | 2 panic_any
+//!        <mid>: -1, or an op index before which the same bug happens once with the writer only borrowed (caught; the
+//!             writer lives on and must behave as if nothing had happened)
+//!        Same R line as S.  A panic that is not the caller's bug (the writer's own) is answered with P.
+//!   D: <dropfirst> + 2: both writers are dropped by unwinding from a panic of the caller.
+//!   M: a final `pn` op: the function that called make_io! panics there (caller's bug); the child's main catches it.
 //! op  := w <val> | c <codepoint> | f | o <n> <val>*n | ol <n> <val>*n
 //!      | mv  (the writer is moved: boxed, passed through a function, moved back; no output)
 //!      | nw  (S only: the writer is dropped and a NEW Writer is made over the same sink; reported like an
@@ -46,7 +61,9 @@ use rlib_io::writer::{Writable, Writer};
 use std::cell::RefCell;
 use std::io::Write;
 use std::mem::ManuallyDrop;
+use std::panic::{catch_unwind, AssertUnwindSafe};
 use std::rc::Rc;
+use std::sync::atomic::{AtomicBool, Ordering};
 use vh::{p, Sm};
 
 #[derive(Clone, Debug)]
@@ -479,6 +496,7 @@ enum Op {
     Renew,
     Next(String, bool),
     Echo(Val),
+    Bug,
 }
 
 /// A sink with a scripted acceptance pattern.
@@ -529,7 +547,7 @@ macro_rules! exec_op {
                 $on_flush
             }
             Op::Mv => $mv,
-            Op::Renew | Op::Next(..) | Op::Echo(_) => bad("nw / nx / e outside their mode"),
+            Op::Renew | Op::Next(..) | Op::Echo(_) | Op::Bug => bad("nw / nx / e / pn outside their mode"),
             Op::Out(v) => match v.len() {
                 1 => {
                     out!(v[0]);
@@ -623,6 +641,209 @@ fn run_ops(ops: &[Op], sink: Sink, data: &Rc<RefCell<Vec<u8>>>, dbg_fail: &mut O
     flushes
 }
 
+// ------------------------------------------------------------------ the writer's life ends by unwinding
+/// payload of the caller's panic
+struct CallerBug;
+
+/// set right before the caller's bug fires: a panic with the flag down is the writer's own and is answered with P
+static ARMED: AtomicBool = AtomicBool::new(false);
+
+/// the bug in the caller's program; the sink and the writer are healthy
+#[inline(never)]
+fn callers_bug(kind: u32, writer: &mut Writer) -> ! {
+    match kind {
+        0 => {
+            let answers: Vec<u32> = Vec::new();
+            let k = std::hint::black_box(answers.len() + 3);
+            writer.write(&answers[k]);
+        }
+        _ => {}
+    }
+    std::panic::panic_any(CallerBug)
+}
+
+/// a user-defined `Writable`: writes its content through the library's impls, then runs into its own bug
+struct Bomb<'a>(&'a Val);
+impl Writable for Bomb<'_> {
+    fn write(&self, w: &mut Writer) {
+        self.0.write(w);
+        ARMED.store(true, Ordering::SeqCst);
+        std::panic::panic_any(CallerBug)
+    }
+}
+
+/// Owner of the writer while the script runs.  Unwinding from the caller's bug drops the writer (impl Drop for Writer
+/// runs with std::thread::panicking() == true); unwinding from any other panic leaks it (a flush of a broken writer
+/// during unwinding could panic again, and a panic that leaves a destructor during unwinding aborts the process).
+struct Unwound {
+    w: ManuallyDrop<Writer<'static>>,
+    drop_panicked: Rc<RefCell<bool>>,
+}
+impl Drop for Unwound {
+    fn drop(&mut self) {
+        if ARMED.load(Ordering::SeqCst) {
+            let w = &mut self.w;
+            // SAFETY: dropped exactly once, nothing uses the writer afterwards
+            if catch_unwind(AssertUnwindSafe(|| unsafe { ManuallyDrop::drop(w) })).is_err() {
+                *self.drop_panicked.borrow_mut() = true;
+            }
+        }
+    }
+}
+
+/// runs its closure when it is dropped
+struct RunsInDrop<F: FnMut()>(F);
+impl<F: FnMut()> Drop for RunsInDrop<F> {
+    fn drop(&mut self) {
+        (self.0)()
+    }
+}
+
+/// moves a job to a worker thread.  The job holds `Rc`s whose other clones the spawning thread does not touch
+/// before the worker has been joined.
+struct Carry<F>(F);
+unsafe impl<F> Send for Carry<F> {}
+impl<F: FnOnce()> Carry<F> {
+    fn call(self) {
+        (self.0)()
+    }
+}
+
+struct UnwindCfg {
+    entry: u32,
+    bug: u32,
+    mid: i64,
+}
+
+/// the script, then the caller's bug; never returns normally
+fn run_ops_then_bug(
+    ops: &[Op],
+    sink: Sink,
+    data: &Rc<RefCell<Vec<u8>>>,
+    cfg: &UnwindCfg,
+    flushes: &mut Vec<usize>,
+    dbg_fail: &mut Option<usize>,
+    drop_panicked: &Rc<RefCell<bool>>,
+) {
+    let reader = ();
+    let (seed, maxchunk, intr) = (sink.rng.0, sink.maxchunk, sink.intr);
+    let mut generation = 0u64;
+    let mut guard = Unwound { w: ManuallyDrop::new(Writer::new(Box::new(sink))), drop_panicked: drop_panicked.clone() };
+    let writer: &mut Writer<'static> = &mut *guard.w;
+    rlib_io::make_output_macro!(reader, writer);
+    let _ = reader;
+    let bomb_at = match (cfg.bug, ops.last()) {
+        (1, Some(Op::Write(_))) => ops.len() - 1,
+        _ => usize::MAX,
+    };
+    for (idx, op) in ops.iter().enumerate() {
+        if idx as i64 == cfg.mid {
+            // the caller's bug once in the middle, caught by the caller; the writer was only borrowed
+            let w: &mut Writer<'static> = &mut *writer;
+            let kind = cfg.bug;
+            if catch_unwind(AssertUnwindSafe(move || callers_bug(kind, w))).is_ok() {
+                bad("the caller's bug did not fire");
+            }
+        }
+        match op {
+            Op::Renew => {
+                // SAFETY: the slot is refilled before anything else looks at it; if the drop panics the guard is not
+                // armed and never touches the slot again
+                unsafe { std::ptr::drop_in_place(&mut *writer as *mut Writer<'static>) };
+                flushes.push(data.borrow().len());
+                generation += 1;
+                let next = Sink { data: data.clone(), rng: Sm(seed ^ generation.wrapping_mul(0x9e37_79b9)), maxchunk, intr };
+                unsafe { std::ptr::write(&mut *writer as *mut Writer<'static>, Writer::new(Box::new(next))) };
+                continue;
+            }
+            Op::Write(v) if idx == bomb_at => {
+                writer.write(&Bomb(v));
+                bad("the caller's bug did not fire");
+            }
+            Op::Write(v) if cfg.entry == 1 => Writable::write(v, &mut *writer),
+            _ => {
+                exec_op!(op, writer, { flushes.push(data.borrow().len()) }, {
+                    // SAFETY: relocate does not unwind
+                    unsafe {
+                        let p = &mut *writer as *mut Writer<'static>;
+                        std::ptr::write(p, relocate(std::ptr::read(p)));
+                    }
+                });
+                if cfg.entry == 0 {
+                    debug_flush_check!(op, idx, writer, data, dbg_fail);
+                }
+            }
+        }
+    }
+    ARMED.store(true, Ordering::SeqCst);
+    callers_bug(cfg.bug, writer)
+}
+
+/// U lines.  Err: a panic that was not the caller's bug.
+fn run_unwinding(
+    ops: &[Op],
+    sink: Sink,
+    data: &Rc<RefCell<Vec<u8>>>,
+    via: u32,
+    cfg: &UnwindCfg,
+    dbg_fail: &mut Option<usize>,
+) -> Result<Vec<usize>, ()> {
+    ARMED.store(false, Ordering::SeqCst);
+    let mut flushes = Vec::new();
+    let drop_panicked = Rc::new(RefCell::new(false));
+    let mut inner_panicked = false;
+    let caught = match via {
+        0 => catch_unwind(AssertUnwindSafe(|| run_ops_then_bug(ops, sink, data, cfg, &mut flushes, dbg_fail, &drop_panicked))).is_err(),
+        1 => {
+            let job = Carry(|| run_ops_then_bug(ops, sink, data, cfg, &mut flushes, dbg_fail, &drop_panicked));
+            std::thread::scope(|s| {
+                std::thread::Builder::new().stack_size(16 << 20).spawn_scoped(s, move || job.call()).unwrap().join().is_err()
+            })
+        }
+        _ => {
+            if cfg.entry != 0 || cfg.mid >= 0 {
+                bad("U 2: public API, no mid-script bug");
+            }
+            let mut sink = Some(sink);
+            let r = catch_unwind(AssertUnwindSafe(|| {
+                let _g = RunsInDrop(|| {
+                    // the thread is unwinding; the writer is made, used and dropped in the ordinary way
+                    let sink = sink.take().unwrap();
+                    match catch_unwind(AssertUnwindSafe(|| run_ops(ops, sink, data, dbg_fail))) {
+                        Ok(f) => flushes = f,
+                        Err(_) => inner_panicked = true,
+                    }
+                });
+                ARMED.store(true, Ordering::SeqCst);
+                std::panic::panic_any(CallerBug)
+            }));
+            r.is_err()
+        }
+    };
+    let armed = ARMED.swap(false, Ordering::SeqCst);
+    if !caught {
+        bad("the caller's bug did not fire");
+    }
+    if !armed || inner_panicked || *drop_panicked.borrow() {
+        return Err(());
+    }
+    Ok(flushes)
+}
+
+/// drops the two writers of a D case in the given order (used while unwinding)
+struct DropBoth<'a>(&'a mut [ManuallyDrop<Writer<'static>>; 2], usize, &'a mut bool);
+impl Drop for DropBoth<'_> {
+    fn drop(&mut self) {
+        for k in [self.1 & 1, 1 - (self.1 & 1)] {
+            let w = &mut self.0[k];
+            // SAFETY: each slot is dropped exactly once, nothing uses it afterwards
+            if catch_unwind(AssertUnwindSafe(|| unsafe { ManuallyDrop::drop(w) })).is_err() {
+                *self.2 = true;
+            }
+        }
+    }
+}
+
 /// one operation on a writer that lives elsewhere (two writers alive at the same time)
 fn apply(
     op: &Op,
@@ -691,6 +912,11 @@ fn makeio_once(ops: &[Op]) {
             }
             continue;
         }
+        if let Op::Bug = op {
+            // the caller's bug: this function is left by unwinding, `writer` (a local made by make_io!) with it
+            ARMED.store(true, Ordering::SeqCst);
+            callers_bug(0, &mut writer);
+        }
         exec_op!(op, writer, {}, {
             writer = relocate(writer);
         });
@@ -704,6 +930,15 @@ fn makeio_invoke(ops: &[Op], on_thread: bool) {
             std::thread::Builder::new().stack_size(16 << 20).spawn_scoped(s, || makeio_once(ops)).unwrap().join().is_ok()
         });
         if !ok {
+            if ARMED.swap(false, Ordering::SeqCst) {
+                return; // the caller's bug, on the worker thread
+            }
+            std::process::exit(101);
+        }
+    } else if matches!(ops.last(), Some(Op::Bug)) {
+        std::panic::set_hook(Box::new(|_| {}));
+        let r = catch_unwind(|| makeio_once(ops));
+        if r.is_err() && !ARMED.swap(false, Ordering::SeqCst) {
             std::process::exit(101);
         }
     } else {
@@ -1105,6 +1340,7 @@ fn parse_ops(t: &[&str], i: &mut usize, tagged: bool) -> (Vec<Op>, Vec<usize>) {
             "f" => ops.push(Op::Flush),
             "mv" => ops.push(Op::Mv),
             "nw" => ops.push(Op::Renew),
+            "pn" => ops.push(Op::Bug),
             "nx" => {
                 let m = unhex(t[*i]);
                 let thr: u32 = p(t[*i + 1]);
@@ -1168,7 +1404,7 @@ fn oracle_of<'a>(ops: impl Iterator<Item = &'a Op>, rt: u32) -> Oracle {
                 // a separator; anything else would glue to the neighbouring tokens
                 readable = readable && c.is_ascii_whitespace();
             }
-            Op::Flush | Op::Mv | Op::Renew => {}
+            Op::Flush | Op::Mv | Op::Renew | Op::Bug => {}
             Op::Out(v) | Op::Outln(v) => {
                 text.push_str(&v.iter().map(|x| x.render()).collect::<Vec<_>>().join(" "));
                 for x in v {
@@ -1244,6 +1480,27 @@ fn main() {
                 Err(Some((got, why))) => answer(got, &[], &or, rt, Some(why)),
             };
         }
+        if t[0] == "U" {
+            let via: u32 = p(t[1]);
+            let cfg = UnwindCfg { entry: p(t[2]), bug: p(t[3]), mid: p(t[4]) };
+            let maxchunk: usize = p(t[5]);
+            let intr: u64 = p(t[6]);
+            let seed: u64 = p(t[7]);
+            let rt: u32 = p(t[8]);
+            let mut i = 9;
+            let (ops, _) = parse_ops(t, &mut i, false);
+            let or = oracle_of(ops.iter(), rt);
+            let data = Rc::new(RefCell::new(Vec::new()));
+            let sink = Sink { data: data.clone(), rng: Sm(seed), maxchunk: maxchunk.max(1), intr };
+            let mut dbg_fail = None;
+            return match run_unwinding(&ops, sink, &data, via, &cfg, &mut dbg_fail) {
+                Ok(flushes) => {
+                    let got = data.borrow().clone();
+                    answer(got, &flushes, &or, rt, dbg_fail.map(|i| format!("dbgflush{}", i)))
+                }
+                Err(()) => "P".to_string(),
+            };
+        }
         let dual = t[0] == "D";
         let maxchunk: usize = p(t[1]);
         let intr: u64 = p(t[2]);
@@ -1284,9 +1541,24 @@ fn main() {
         for (idx, (op, &w)) in ops.iter().zip(&tags).enumerate() {
             apply(op, idx, &mut ws[w], &datas[w], &mut flushes[w], &mut fails[w]);
         }
-        for k in [dropfirst & 1, 1 - (dropfirst & 1)] {
-            // SAFETY: each slot is taken exactly once, nothing uses it afterwards
-            drop(unsafe { ManuallyDrop::take(&mut ws[k]) });
+        if dropfirst & 2 != 0 {
+            // both writers go out of scope because the caller's code panics
+            let mut drop_panicked = false;
+            let r = catch_unwind(AssertUnwindSafe(|| {
+                let _g = DropBoth(&mut ws, dropfirst, &mut drop_panicked);
+                std::panic::panic_any(CallerBug)
+            }));
+            if r.is_ok() {
+                bad("the caller's bug did not fire");
+            }
+            if drop_panicked {
+                return "P".to_string();
+            }
+        } else {
+            for k in [dropfirst & 1, 1 - (dropfirst & 1)] {
+                // SAFETY: each slot is taken exactly once, nothing uses it afterwards
+                drop(unsafe { ManuallyDrop::take(&mut ws[k]) });
+            }
         }
         let other = 1 - which;
         let fail = if let Some(i) = fails[which] {
